@@ -266,6 +266,9 @@ def gen_wrap(tier, seed):
         yield {"wrapper": "hist_fit", "errors": e, "extra": {}}
     yield {"wrapper": "hist_fit", "errors": {}, "extra": {}}
     yield {"wrapper": "hist_fit", "errors": {}, "extra": {"density": False}}
+    yield {"wrapper": "hist_fit", "errors": {}, "extra": {"data_form": "container"}}
+    yield {"wrapper": "hist_fit", "errors": {"error": 0.3}, "extra": {"data_form": "container"}}
+    yield {"wrapper": "hist_fit", "errors": {}, "extra": {"data_form": "numpy-histogram"}}
     yield {"wrapper": "hist_fit", "errors": {}, "extra": {"gauss_approximation": True}}
     yield {"wrapper": "unbinned_fit", "errors": {}, "extra": {}}
     yield {"wrapper": "unbinned_fit", "errors": {}, "extra": {"fixed": ("sigma", 1.1)}}
@@ -337,7 +340,13 @@ def wrap(inp):
             add_generic(g, e)
         elif w == "hist_fit":
             kw = dict(extra)
-            res = wrapper.hist_fit(norm_pdf, raw, n_bins=6, bin_range=(-3, 3), **e, **kw, **WRAP_KW)
+            form = kw.pop("data_form", "raw")          # the three documented forms of the data argument describe the same histogram
+            if form == "raw":
+                res = wrapper.hist_fit(norm_pdf, raw, n_bins=6, bin_range=(-3, 3), **e, **kw, **WRAP_KW)
+            elif form == "container":
+                res = wrapper.hist_fit(norm_pdf, HistContainer(6, (-3, 3), fill_data=raw), **e, **kw, **WRAP_KW)
+            else:
+                res = wrapper.hist_fit(norm_pdf, np.histogram(raw, bins=6, range=(-3, 3)), **e, **kw, **WRAP_KW)
             ga = kw.get("gauss_approximation")
             if ga is None:
                 ga = any(k != "errors_rel_to_model" for k in e)
